@@ -113,6 +113,12 @@ theorem step_pc_other (s : St) (i j : Pid) (h : j ≠ i) : (step s i).pc j = s.p
   unfold step; repeat' split
   all_goals simp [setPC, upd, h]
 
+theorem run_replicate_pc_other (s : St) (i j : Pid) (n : Nat) (h : j ≠ i) :
+    (run s (List.replicate n i)).pc j = s.pc j := by
+  induction n generalizing s with
+  | zero => rfl
+  | succ n ih => simp [List.replicate_succ, ih, step_pc_other s i j h]
+
 theorem parentHolds_none (fs : List (Kind × Pid)) : parentHolds none fs = false := by
   simp [parentHolds]
 
